@@ -22,7 +22,7 @@ K = 12     # @slices in u_inbody.contracts
 NAMES = ['step__in_body'] + ['step__in_body__s%d' % k for k in range(1, K + 1)]
 BODY = tuple('TreeBuilder::' + n for n in NAMES)
 REWRITES = [
-    Rewrite('R32-vecmacro', r'attrs: vec!\[\],', 'attrs: no_attrs(),', only=BODY, min_count=1),
+    Rewrite('R32-vecmacro', r'attrs: vec!\[\],', 'attrs: no_attrs(),', only=BODY),
 ] + [rw for rw in u_table.REWRITES if not (rw.only and all(o.startswith('TreeBuilder::step__') for o in rw.only))] + [
     Rewrite('S-fragment-close', r'\}\s*\Z', '} }', only=BODY),
     # R38: Option<Ref<Handle>> glue
